@@ -330,7 +330,7 @@ func init() {
 		},
 		Cases: func(tier string) int {
 			if tier == "thorough" {
-				return 20000
+				return 300000
 			}
 			return 1500
 		},
